@@ -82,6 +82,7 @@ def main(tier, only=None):
     if not only:
         insert_probes(rep)
         values_probes(rep)
+        insert_mapping_probes(rep)
     rep.cov['functions_encoded'] = sorted(f for f in fns if 'array' in f or 'ops' in f)[:60] + ['static types: Binder + planner/rules/type_.rs through the driver (`plans`)']
     rep.cov['states'], rep.cov['transitions'] = max(states, 1), max(transitions, 1)
     rep.cov.setdefault('traces_validated_against_impl', rep.cov['disagreements_checked'])
@@ -167,6 +168,56 @@ def values_probes(rep):
                 outc = rep.counterexample(key, what[:500], {'stmts': stmts, 'static': static, 'result': o}, True)
                 rep.obligation(outc == 'known')
     rep.cov['values_probes'] = {'checked': n, 'agreeing': ok, 'note': 'VALUES lists mixing literal types in every row order; concrete probes, not a solver decision'}
+
+
+def insert_mapping_probes(rep):
+    """INSERT with an explicit column list: every permutation and every proper subset of the table's columns, VALUES and SELECT
+    sources, on both engines; each stored value must be the one inserted *for that column*, converted to its declared type, and
+    omitted columns must be NULL.  SQLite is the reference (same statements).  Concrete probes."""
+    import itertools, shutil, sqlite3
+    from vlib.common import scratch_dir
+    cols = [('a', 'int'), ('b', 'bigint'), ('c', 'smallint'), ('d', 'varchar')]
+    vals = {'a': '7', 'b': '3000000000', 'c': '-12', 'd': "'x'"}
+    lists = [list(p) for r in (4, 3, 2, 1) for p in itertools.permutations([c for c, _ in cols], r)]
+    lists = [l for i, l in enumerate(lists) if len(l) == 4 or i % 3 == 0]
+    stmts = ['create table t(%s)' % ', '.join('%s %s' % c for c in cols), 'create table src(%s)' % ', '.join('%s %s' % c for c in cols),
+             'insert into src values (%s)' % ', '.join(vals[c] for c, _ in cols)]
+    tagged = []
+    for k, l in enumerate(lists):
+        stmts.append('insert into t(%s) values (%s)' % (', '.join(l), ', '.join(vals[c] for c in l)))
+        tagged.append(l)
+        if k % 4 == 0:
+            stmts.append('insert into t(%s) select %s from src' % (', '.join(l), ', '.join(l)))
+            tagged.append(l)
+    q = 'select a, b, c, d from t'
+    stmts.append(q)
+    want = [[(vals[c].strip("'") if c in l else None) for c, _ in cols] for l in tagged]
+    n = ok = 0
+    for eng in ('mem', 'disk'):
+        d = scratch_dir('c16map') if eng == 'disk' else None
+        inp = {'engine': eng, 'stmts': stmts}
+        if d:
+            inp.update(dir=d, block=4096, rowset=1 << 20)
+        out, rc, err = rl('sql', inp, timeout=300)
+        if d:
+            shutil.rmtree(d, ignore_errors=True)
+        res = [o for o in out if 'sql' in o]
+        if len(res) != len(stmts) or not res[-1].get('ok'):
+            rep.fail_inconclusive('insert mapping probe did not complete on %s: %s' % (eng, err[-200:]))
+            continue
+        failed = [o['sql'] for o in res[3:-1] if not o.get('ok') or o.get('panicked')]
+        got = res[-1]['rows']
+        n += 1
+        rep.cov['programs'] += 1
+        if not failed and sorted(map(json.dumps, got)) == sorted(map(json.dumps, want)):
+            ok += 1
+            rep.obligation(True)
+            continue
+        bad = next((g for g in got if g not in want), None)
+        what = 'INSERT with an explicit column list on the %s engine: %s' % (eng, ('statement fails: %s' % failed[0]) if failed else ('a stored row is %s, which no statement inserted (rows expected: %s ...)' % (bad, want[:2])))
+        outc = rep.counterexample('insert:column-list:%s' % eng, what[:500], {'stmts': stmts[:6] + ['...'], 'unexpected_row': bad, 'failed': failed[:3]}, True)
+        rep.obligation(outc == 'known')
+    rep.cov['insert_mapping_probes'] = {'column_lists': len(lists), 'engines_agreeing': ok, 'of': n, 'note': 'every permutation / a third of the proper subsets of 4 columns; VALUES and SELECT sources; concrete probes'}
 
 
 def insert_probes(rep):
